@@ -94,6 +94,40 @@ theorem tabView_of_set {fs : FsState} {sz : Nat} (g : Geo fs sz) (img img' : Img
     unfold updV tabView
     rw [if_neg hi, if_neg hic, if_neg hi]
 
+/-- the records of the later FAT copies do not touch the first one -/
+theorem applyRecs_mirrors_below (off size : Nat) (bs : List Nat) : ∀ (k i : Nat) (img : Img), img.WF →
+    ∀ q, q < off + i * size → (applyRecs img (mirrorRecs off size bs k i)).getByte q = img.getByte q
+  | 0, _, _, _, _, _ => rfl
+  | k + 1, i, img, hwf, q, hq => by
+    show (applyRecs (img.write (off + i * size) bs) (mirrorRecs off size bs k (i + 1))).getByte q = _
+    rw [applyRecs_mirrors_below off size bs k (i + 1) _ (Img.wf_write _ hwf _ _) q (by rw [Nat.succ_mul]; omega),
+      Img.getByte_write_of_not_mem _ hwf _ _ _ (by omega)]
+
+/-- the classified records of ONE FAT update whose effect on the decoded table is a point update -/
+theorem FatUpd.trace {fs : FsState} {c : Nat} {d d' : Dev} {arr' : Array Nat} {v : FatValue} (hu : FatUpd fs c d d' arr')
+    (hg : Geo fs d.img.size) (hwf : d.img.WF) (hc : c < fs.totalClusters + 2)
+    (htv : tabView fs d'.img = updV (tabView fs d.img) c v) (E D : Nat → Prop) (hE : E c) : Trace fs E D d d' := by
+  obtain ⟨bs, hl, hlog, himg⟩ := hu.recs
+  refine ⟨_, hlog, himg, ?_⟩
+  refine classified_mirrors fs d.img.size hg c hc bs hl E D hE _ 0 d.img hwf rfl (by omega) (fun _ x hx => ?_)
+  obtain ⟨m, hm⟩ : ∃ m, (fatSliceOf fs).mirrors = m + 1 := ⟨(fatSliceOf fs).mirrors - 1, by have := hg.mirrors_pos; omega⟩
+  rw [hm] at himg
+  have himg' : d'.img = applyRecs (d.img.write ((fatSliceOf fs).beginOff + entOff fs.fatType c) bs)
+      (mirrorRecs ((fatSliceOf fs).beginOff + entOff fs.fatType c) (fatSliceOf fs).size bs m 1) := by
+    rw [himg]
+    show applyRecs (d.img.write ((fatSliceOf fs).beginOff + entOff fs.fatType c + 0 * (fatSliceOf fs).size) bs) _ = _
+    rw [Nat.zero_mul, Nat.add_zero]
+  have hfat : FatAgree fs (d.img.write ((fatSliceOf fs).beginOff + entOff fs.fatType c) bs) d'.img := by
+    intro q _ h2
+    rw [himg']
+    exact applyRecs_mirrors_below _ _ _ m 1 _ (Img.wf_write _ hwf _ _) q (by omega)
+  have hg1 : Geo fs (d.img.write ((fatSliceOf fs).beginOff + entOff fs.fatType c) bs).size := by
+    rw [Img.write_size]; exact hg
+  have h1 := tabView_congr hg1 hfat
+  rw [← h1, htv]
+  unfold updV
+  rw [if_neg hx]
+
 theorem run_tryCatch_ok {α} {p : Prog α} {h : Err → Prog α} {d d' : Dev} {a : α} (hp : run p d = (.ok a, d')) :
     run (Prog.tryCatch p h) d = (.ok a, d') := by
   simp only [run, hp]
@@ -167,7 +201,8 @@ theorem run_allocCluster_fine (fs : FsState) (s : DiskSlice) (hs : IsFatSlice fs
           (fatSliceOf fs).beginOff + (fatSliceOf fs).mirrors * (fatSliceOf fs).size ≤ q) →
         d'.img.getByte q = d.img.getByte q) ∧
       (∀ q, ¬ FatEntryPos fs c q → (∀ p, prev = some p → ¬ FatEntryPos fs p q) →
-        d'.img.getByte q = d.img.getByte q)) := by
+        d'.img.getByte q = d.img.getByte q) ∧
+      (∀ E D : Nat → Prop, E c → (∀ p, prev = some p → E p) → Trace fs E D d d')) := by
   obtain ⟨d1, hs1, hout⟩ := run_allocFind fs d.img hg s hint d hs hfa rfl
   rw [allocCluster_eq]
   cases hf : allocFindV (tabView fs d.img) hint fs.totalClusters with
@@ -197,7 +232,9 @@ theorem run_allocCluster_fine (fs : FsState) (s : DiskSlice) (hs : IsFatSlice fs
     cases hprev : prev with
     | none =>
       simp only
-      refine ⟨c, d2, s2, rfl, rfl, (DevStep.of_sameStore hs1).trans hu2.step, hu2.fs_eq.trans hs1.fs, ?_, ?_, ?_⟩
+      refine ⟨c, d2, s2, rfl, rfl, (DevStep.of_sameStore hs1).trans hu2.step, hu2.fs_eq.trans hs1.fs, ?_, ?_, ?_,
+        fun E D hE _ => (Trace.of_sameStore hs1).trans
+          (hu2.trace hg1 hwf1 hct (by rw [hs1.img]; exact htv2) E D hE)⟩
       · rw [htv2]; rfl
       · intro q hq; rw [hu2.frame q hq, hs1.img]
       · intro q hq _; rw [hu2.fine q hq, hs1.img]
@@ -216,7 +253,10 @@ theorem run_allocCluster_fine (fs : FsState) (s : DiskSlice) (hs : IsFatSlice fs
       have htv3 : tabView fs d3.img = updV (tabView fs d2.img) p (.data c) :=
         tabView_of_set hg2 d2.img d3.img hpt hrep_data (by rw [hu3.arr]; exact hset3)
       refine ⟨c, d3, s3, rfl, rfl, ((DevStep.of_sameStore hs1).trans hu2.step).trans hu3.step,
-        (hu3.fs_eq.trans hu2.fs_eq).trans hs1.fs, ?_, ?_, ?_⟩
+        (hu3.fs_eq.trans hu2.fs_eq).trans hs1.fs, ?_, ?_, ?_,
+        fun E D hE hEp => ((Trace.of_sameStore hs1).trans
+          (hu2.trace hg1 hwf1 hct (by rw [hs1.img]; exact htv2) E D hE)).trans
+          (hu3.trace hg2 hwf2 hpt htv3 E D (hEp p rfl))⟩
       · rw [htv3, htv2]; rfl
       · intro q hq; rw [hu3.frame q hq, hu2.frame q hq, hs1.img]
       · intro q hq hqp; rw [hu3.fine q (hqp p rfl), hu2.fine q hq, hs1.img]
@@ -271,12 +311,13 @@ theorem run_allocClusterFs_fine (prev : Option Nat) (d : Dev) (hfa : d.failAt = 
           (fatSliceOf d.fs).beginOff + (fatSliceOf d.fs).mirrors * (fatSliceOf d.fs).size ≤ q) →
         d'.img.getByte q = d.img.getByte q) ∧
       (∀ q, ¬ FatEntryPos d.fs c q → (∀ p, prev = some p → ¬ FatEntryPos d.fs p q) →
-        d'.img.getByte q = d.img.getByte q)) := by
+        d'.img.getByte q = d.img.getByte q) ∧
+      (∀ E D : Nat → Prop, E c → (∀ p, prev = some p → E p) → Trace d.fs E D d d')) := by
   unfold allocClusterFs
   rw [run_bind_ok (run_getFs d)]
   simp only
   rcases run_allocCluster_fine d.fs (fatSliceOf d.fs) (isFatSlice_self _) prev d.fs.fsInfo.next d hfa hcd hwf hg hinfo.hint
-      (fun p h => (hp p h).2.1) with ⟨hnone, d1, hr, hs1⟩ | ⟨c, d1, s1, hsome, hr, hst, hfs, htv, hfr, hfine⟩
+      (fun p h => (hp p h).2.1) with ⟨hnone, d1, hr, hs1⟩ | ⟨c, d1, s1, hsome, hr, hst, hfs, htv, hfr, hfine, htr⟩
   · left
     exact ⟨hnone, d1, by rw [run_bind_error hr], hs1⟩
   · right
@@ -317,7 +358,10 @@ theorem run_allocClusterFs_fine (prev : Option Nat) (d : Dev) (hfa : d.failAt = 
         cases n with
         | zero => exact absurd hfree hne0
         | succ m => rfl
-    refine ⟨c, { d1 with fs := newFs }, hsome, hrun, ?_, ?_, ?_, ?_, hfr, hfine⟩
+    refine ⟨c, { d1 with fs := newFs }, hsome, hrun, ?_, ?_, ?_, ?_, hfr, hfine, fun E D hE hEp => ?_⟩
+    rotate_left 4
+    · obtain ⟨r, l, i, cl⟩ := htr E D hE hEp
+      exact ⟨r, l, i, cl⟩
     · exact ⟨hst.failAt, hst.size, hst.wf, hgeo, hst.clock⟩
     · show newFs.curDirty = true
       rw [← hnew]; exact hcd
